@@ -294,7 +294,7 @@ pub fn body(case: &Case, out: &Shared) {
             o.stats.writes += 1;
             o.stats.ops += 1;
         });
-        match call("apply", || db.apply(WriteOptions::default(), b)) {
+        match call("apply", || db.apply(wopts(), b)) {
             Called::Ok(Ok(())) => {
                 // the WAL the batch went to: the one active right after the write returned (a
                 // rotation, if any, happens before the append)
